@@ -75,7 +75,7 @@ def groups_arg(draw, d):
 @st.composite
 def est_spec(draw, classes=None, n_max=12, d_max=4, k_max=3, hidden_max=4, iter_max=3, lr=(0.01, 0.1, 0.5),
              cuts_max=2, batch_sizes=True, default_lr=False, gem_names=None, allow_instance=True, kernel_forms=None,
-             metric_forms=None, metric_names=None, n_min=None, d_min=1, xkinds=("normal", "grid", "scaled")):
+             metric_forms=None, metric_names=None, n_min=None, d_min=1, xkinds=("normal", "grid", "scaled", "blobs", "line", "sorted")):
     cls = draw(st.sampled_from(sorted(classes or GRADIENT_MODELS)))
     K = draw(st.integers(1, k_max))
     n = draw(st.integers(max(K, n_min or 1), max(n_max, K)))
@@ -256,7 +256,7 @@ KAURI_KERNELS = sorted(gens.KERNEL_PARAM_NAMES)
 
 
 @st.composite
-def kauri_spec(draw, n_max=30, d_max=4, kinds=("grid", "normal", "offset", "grid2", "const")):
+def kauri_spec(draw, n_max=30, d_max=4, kinds=("grid", "normal", "offset", "grid2", "const", "blobs", "line", "sorted", "onehot")):
     n = draw(st.one_of(st.integers(max(1, n_max // 3), n_max), st.integers(1, n_max)))
     d = draw(st.integers(1, d_max))
     leaf = draw(st.sampled_from([1, 1, 2, 1, 3, 4]))
@@ -293,6 +293,25 @@ def build_kauri_data(s):
         base = rs.choice([1000.0, 2021.0, 293.15, -5e4], size=d)
         step = rs.choice([1e-3, 1e-6, 1e-9]) * np.abs(base)
         X = base + step * rs.randint(0, 6, size=(n, d))
+    elif kind == "blobs":  # an actual cluster structure: many clusters really get formed, leaves share clusters
+        k = s["x"].get("blobs") or rs.randint(2, 6)
+        centres = rs.randint(-1, 2, size=(k, d)) * 4.0 + rs.randn(k, d) * 0.3
+        if s["x"].get("blobs"):
+            centres = rs.uniform(-1, 1, size=(k, d)) * s["x"].get("blob_range", 6.0)
+        X = centres[rs.randint(k, size=n)] + rs.randn(n, d) * s["x"].get("blob_std", 0.4)
+        if s["x"].get("blob_round"):
+            X = np.round(X, 1)
+    elif kind == "line":  # equally spaced, in order
+        X = np.arange(n, dtype=float)[:, None] * rs.choice([0.25, 0.5, 1.0], size=d) - rs.choice([0.0, 1.0, 2.5])
+    elif kind == "sorted":
+        X = rs.randn(n, d)
+        X = X[np.argsort(X[:, 0])]
+        if rs.randint(2):
+            X = X[::-1]
+    elif kind == "onehot":  # one-hot encoded categorical variable (plus noise columns when d > 3)
+        X = rs.randn(n, d)
+        w = min(d, 3)
+        X[:, :w] = np.eye(w)[rs.randint(w, size=n)]
     else:
         X = rs.randn(n, d)
     if s["kernel"]["name"] in gens.NONNEG_KERNELS and s["kernel"]["form"] in ("named", "precomputed", "callable"):
